@@ -660,6 +660,12 @@ func syncIndexedDoc(
 		return err
 	}
 
+	if isNewDoc && isDeletedDoc {
+		// the document is not readable before nor after the merge (a commit merged into a deleted
+		// document): there are no index entries to change
+		return nil
+	}
+
 	if isNewDoc {
 		return col.indexNewDoc(ctx, doc)
 	} else if isDeletedDoc {
